@@ -582,6 +582,21 @@ func newFileConfig(opts *CmdEnv, cData, rulesData []configData, currentVersion .
 		return nil, err
 	}
 
+	// A stray "-" line in a Rules or Conditions list decodes to a nil entry,
+	// which validation does not reject; drop those so nothing dereferences them.
+	if rulesconf != nil {
+		for _, choice := range rulesconf.Samplers {
+			if choice == nil || choice.RulesBasedSampler == nil {
+				continue
+			}
+			rbs := choice.RulesBasedSampler
+			rbs.Rules = slices.DeleteFunc(rbs.Rules, func(r *RulesBasedSamplerRule) bool { return r == nil })
+			for _, rule := range rbs.Rules {
+				rule.Conditions = slices.DeleteFunc(rule.Conditions, func(c *RulesBasedSamplerCondition) bool { return c == nil })
+			}
+		}
+	}
+
 	// Set workerCount on SampleCache once during initialization
 	mainconf.SampleCache.WorkerCount = uint(mainconf.Collection.GetWorkerCount())
 
